@@ -14,6 +14,7 @@ import (
 
 // WaitCase is one case of a select (or the single channel of a bare operation).
 type WaitCase struct {
+	Chan  ssa.Value // the channel operand
 	Dir   types.ChanDir
 	Class string // req-ctx | conn-ctx | ctx | result | timer | done | queue | other
 	Desc  string
@@ -99,6 +100,12 @@ func classifyCtx(fn *ssa.Function, v ssa.Value) string {
 }
 
 func classifyChan(fn *ssa.Function, ch ssa.Value) WaitCase {
+	c := classifyChan0(fn, ch)
+	c.Chan = ch
+	return c
+}
+
+func classifyChan0(fn *ssa.Function, ch ssa.Value) WaitCase {
 	v := Resolve(ch)
 	switch x := v.(type) {
 	case *ssa.Call:
